@@ -9,6 +9,8 @@ pub mod choices;
 pub mod configs;
 pub mod driver;
 pub mod elem;
+pub mod ops_lazy;
+pub mod ops_misc;
 pub mod ops_range;
 pub mod ops_remove;
 pub mod props;
